@@ -141,7 +141,7 @@ CLAIMED = {
          "C13_fault_reported / C13_reconnect_never_lost / C13_reconnect_progress / C13_retry_delay / C13_retry_continues / C13_backoff / "
          "C13_connect_succeeds / C13_connect_finishes / C13_single_receive_path / C13_never_monopolises hold for every client kind, every reachable "
          "state and every run of any length of ClientLTS.v with all repairs on; the defects F-eofspin and F-connect-lost are runs of the "
-         "same model with the repair off (C13_eofspin_as_it_was, C13_connect_lost_as_it_was). Inevitability under a quiet environment is PROVED (ClientLTSLive.v): an explicit "
+         "same model with the repair off (C13_eofspin_as_it_was, C13_connect_lost_as_it_was). All statements are also for clients that run the network-map seeding task (model parameter sd): a fault of a seeding send is reported and reconnected like any other, its steps are quiet steps of the inevitability theorems and a state at rest has no seeding task left. Inevitability under a quiet environment is PROVED (ClientLTSLive.v): an explicit "
          "measure lmu strictly decreases on every step of the client's own machinery with an accepting gateway (C13_recovery_terminates); a "
          "reachable non-CLOSED state with no such step enabled is at rest CONNECTED with a live receive task, or was never asked to connect "
          "(C13_no_deadlock_before_recovery); hence every maximal quiet run after a fault has at most lmu x steps and ends recovered "
@@ -162,10 +162,10 @@ CLAIMED = {
          "labelled traces of the four real clients with close() injected at every event-loop step x status callbacks that return/raise/are slow",
          "C14_closed_absorbing / C14_link_shut_current / C14_link_shut_new / C14_after_close_returned / C14_background_tasks_finish / "
          "C14_status_once_per_change / C14_status_trace_faithful / C14_status_trace_no_repeat / C14_callback_exception_harmless for every client "
-         "kind and every run; close() may be called any number of times (further calls are tasks of their own: AClose2Entry / AClose2Timer): C14_every_close_return_link_shut - whenever ANY close() call returns the state is CLOSED, the current link is shut (exception: a serial port whose configuration drain is pending) and no receive task can read; C14_close_guard_as_it_would_be is the counter-run for an idempotence guard `if state == CLOSED: return` (model switch fg). F-closerace is a run of the model with the repair off (C14_closerace_as_it_was). C14_link_shut_full is a THEOREM for the model with repair 7a732b1 (every connection obtained after "
+         "kind and every run; close() may be called any number of times (further calls are tasks of their own: AClose2Entry / AClose2Timer): C14_every_close_return_link_shut - whenever ANY close() call returns the state is CLOSED, the current link is shut (exception: a serial port whose configuration drain is pending) and no receive task can read; C14_close_guard_as_it_would_be is the counter-run for an idempotence guard `if state == CLOSED: return` (model switch fg). The network-map seeding task is part of the model (parameter sd of trans/run/reachable; every theorem is forall k sd): created by the connect() success step, its three sleeps and three sends (through the send machinery of the model, faults included) are labels ASeedStart/ASeedTimer/ASeedDrainDone/ASeedCbDone; C14_background_tasks_finish includes them (after close() every seeding task ends: explicit measure), C14_seeding_task_finishes_after_close is a concrete run; the netmap sessions are accepted by the acceptor with sd = true. F-closerace is a run of the model with the repair off (C14_closerace_as_it_was). C14_link_shut_full is a THEOREM for the model with repair 7a732b1 (every connection obtained after "
          "close() is closed once close() returned and the connect() in flight finished; C14_drainleak_as_it_was is the counter-run without "
          "the repair). PARTIAL: (2) after close() returned a receive task created by a connect() that was inside its status callback may exist "
-         "for one step (never reads); (3) send() coroutines are outside the termination measure; no _seed_network_map (the seeding task is decided by the session oracle only); (4) close() awaited from inside a status/receive callback (on one of the client's own tasks) is outside the LTS and is decided on the real clients by the property oracle (120 sessions per run); the defect repaired by 8427f0d was found and is checked there.",
+         "for one step (never reads); (3) user send() coroutines are outside the termination measure; (4) close() awaited from inside a status/receive callback (on one of the client's own tasks) is outside the LTS and is decided on the real clients by the property oracle (120 sessions per run); the defect repaired by 8427f0d was found and is checked there.",
          "Trusted: as C13; tools/props/c14.py oracle (state stays CLOSED, no attempt after CLOSED, no receive callback after close() returned, "
          "writers closed, no pending task, status trace = state changes, raise/return differential). Theorems closed under the global context.",
          "DESIGN.md §10.7"),
